@@ -47,8 +47,11 @@ struct Inner {
     log: [LogEnt; MAXLOG],
     nlog: usize,
     log_lost: usize,
-    quar: [Live; MAXQ],
+    quar: [Live; MAXQ], // ring: oldest at qhead
+    qhead: usize,
     nquar: usize,
+    evict_bad: u64,
+    evict_first: [usize; 4], // addr, size, offset, byte of the first spoiled evicted block
     quar_lost: usize,
     live_lost: usize,
     allocs: u64,
@@ -93,7 +96,10 @@ pub static GA: Counting = Counting {
         nlog: 0,
         log_lost: 0,
         quar: [L0; MAXQ],
+        qhead: 0,
         nquar: 0,
+        evict_bad: 0,
+        evict_first: [0; 4],
         quar_lost: 0,
         live_lost: 0,
         allocs: 0,
@@ -186,7 +192,7 @@ unsafe impl GlobalAlloc for Counting {
             if found == usize::MAX {
                 let mut inq = false;
                 for i in 0..s.nquar {
-                    if s.quar[i].addr == a {
+                    if s.quar[(s.qhead + i) % MAXQ].addr == a {
                         inq = true;
                         break;
                     }
@@ -203,14 +209,30 @@ unsafe impl GlobalAlloc for Counting {
             s.frees += 1;
             // log the layout the caller passed (a mismatch with the allocation's is visible)
             s.push_log(b'f', a, l.size(), l.align());
-            if s.quar_on && s.nquar < MAXQ {
+            if s.quar_on {
+                if s.nquar == MAXQ {
+                    // ring full: the oldest block leaves - its poison is verified first
+                    let old = s.quar[s.qhead];
+                    s.qhead = (s.qhead + 1) % MAXQ;
+                    s.nquar -= 1;
+                    s.quar_lost += 1;
+                    let op = old.addr as *const u8;
+                    for off in 0..old.size {
+                        let b = op.add(off).read_volatile();
+                        if b != POISON {
+                            if s.evict_bad == 0 {
+                                s.evict_first = [old.addr, old.size, off, b as usize];
+                            }
+                            s.evict_bad += 1;
+                        }
+                    }
+                    s.dl.free(old.addr as *mut u8);
+                }
                 core::ptr::write_bytes(p, POISON, ent.size);
-                s.quar[s.nquar] = ent;
+                let at = (s.qhead + s.nquar) % MAXQ;
+                s.quar[at] = ent;
                 s.nquar += 1;
             } else {
-                if s.quar_on {
-                    s.quar_lost += 1;
-                }
                 s.dl.free(p);
             }
         });
@@ -253,6 +275,13 @@ pub fn note_block(addr: usize, ord: usize) {
     });
 }
 
+/// Start a new log section (race batches): entries so far have been printed
+pub fn reset_log() {
+    GA.with(|s| {
+        s.nlog = 0;
+    });
+}
+
 pub fn configure(log_on: bool, quar_on: bool) {
     GA.with(|s| {
         s.log_on = log_on;
@@ -288,9 +317,20 @@ pub fn dump(_locked: bool) {
             out::u(e.ctx_gate as u64);
             out::nl();
         }
-        let mut bad = 0u64;
+        let mut bad = s.evict_bad;
+        if s.evict_bad > 0 {
+            out::s("poisonbad ");
+            out::x(s.evict_first[0] as u64);
+            out::sp();
+            out::u(s.evict_first[1] as u64);
+            out::sp();
+            out::u(s.evict_first[2] as u64);
+            out::sp();
+            out::u(s.evict_first[3] as u64);
+            out::nl();
+        }
         for i in 0..s.nquar {
-            let q = s.quar[i];
+            let q = s.quar[(s.qhead + i) % MAXQ];
             let p = q.addr as *const u8;
             for off in 0..q.size {
                 let b = unsafe { p.add(off).read_volatile() };
